@@ -48,6 +48,59 @@ pub fn replay(payload: &serde_json::Value, prop: &str) {
     rt::run(crate::hsim::replay_verbose(&cfg, monitors, &hist, &crate::hsim::NoDriver));
 }
 
+/// C19: one long scripted session — many requests in both directions under one key, losses that
+/// force retransmissions, and a mid-way restart of the peer (re-key with requests in flight).
+async fn long_session(n: usize, retries: u8) -> (u64, u64, Vec<mc::Violation>, std::collections::BTreeMap<&'static str, u64>) {
+    use crate::hsim::{NoDriver, World};
+    let workload: Vec<Req> = (0..n).map(|k| if k % 3 == 2 { req(1, 0, if k % 2 == 0 { Body::Ping } else { Body::Talk }, true) } else { req(0, 1, if k % 4 == 0 { Body::Find(2) } else { Body::Ping }, true) }).collect();
+    let cfg = HCfg { nodes: 2, workload, retries, force_nonce: true, allow_restart: vec![1], ..Default::default() };
+    let monitors = Monitors { c03: false, c04: false, c13: false, c15: false, c19: true };
+    let mut w = World::build(&cfg, monitors).await;
+    let d = NoDriver;
+    let mut steps = 0u64;
+    for k in 0..n {
+        w.step(&Ev::Submit(k), &d).await;
+        steps += 1;
+        if k % 5 == 3 && !w.inflight.is_empty() {
+            // lose the newest datagram: the request is retransmitted by its timer
+            let last = w.inflight.len() - 1;
+            w.step(&Ev::Drop(last), &d).await;
+            steps += 1;
+        }
+        if k == n / 2 {
+            w.step(&Ev::Restart(1), &d).await;
+            steps += 1;
+        }
+        if k % 2 == 1 {
+            // two requests are in flight together every other round
+            continue;
+        }
+        let mut guard = 0;
+        loop {
+            let ev = match w.default_event() {
+                // pending timers (retransmissions, failures) run before the next submission
+                Some(Ev::Submit(_)) if w.earliest_deadline().is_some() => Ev::Timer,
+                Some(Ev::Submit(_)) | None => break,
+                Some(e) => e,
+            };
+            w.step(&ev, &d).await;
+            steps += 1;
+            guard += 1;
+            if guard > 200 || !w.violations.is_empty() {
+                break;
+            }
+        }
+        if !w.violations.is_empty() {
+            break;
+        }
+    }
+    let datagrams = w.log.len() as u64;
+    let vio = w.violations.clone();
+    let counters = w.counters.clone();
+    let _ = steps;
+    (datagrams, steps, vio, counters)
+}
+
 pub fn run(prop: &str) {
     let mut rep = Report::new(prop, "model_checking");
     let thorough = rep.thorough();
@@ -103,6 +156,21 @@ pub fn run(prop: &str) {
                 found.push(v);
             }
         }
+    }
+    if prop == "C19" {
+        for (n, r) in [(40usize, 2u8), (24, 3)] {
+            let (datagrams, lsteps, vio, c) = rt::run(long_session(n, r));
+            rep.add("long_session_datagrams", datagrams);
+            rep.add("long_session_steps", lsteps);
+            rep.add("long_session_retransmissions", c.get("retransmissions").copied().unwrap_or(0));
+            rep.add("long_session_datagrams_attributed", c.get("datagrams_attributed_to_a_key").copied().unwrap_or(0));
+            execs += 1;
+            for mut v in vio {
+                v.replay = json!({"engine":"hsim","driver":"long-session","requests":n,"retries":r});
+                found.push(v);
+            }
+        }
+        rep.sample(json!({"part":"long session","script":"40 requests in both directions under one session, every 5th request's datagram lost (retransmission), peer restarted half-way (re-key with requests in flight), nonce randomness forced constant"}));
     }
     // C03 / C13 are also decided against a malicious peer / on-path attacker
     if prop == "C03" || prop == "C13" {
